@@ -4,7 +4,8 @@
 (*                                                                                          *)
 (* (1) werkzeug.middleware.proxy_fix.ProxyFix as a decision table.  For each of the five    *)
 (*     X-Forwarded-* headers the value the n-th trusted proxy wrote is the n-th value from   *)
-(*     the RIGHT of the comma separated list (x_* = n); n = 0, an absent / empty header,     *)
+(*     the RIGHT of the comma separated list (plain comma split, no quoted strings; whether  *)
+(*     an empty piece counts is left open: two readings) (x_* = n); n = 0, an absent / empty header, *)
 (*     fewer than n values or an empty selected value leave the environ untouched.  Values   *)
 (*     further left (whatever the client sent) never matter.                                 *)
 (*        For    -> REMOTE_ADDR          Proto  -> wsgi.url_scheme      Prefix -> SCRIPT_NAME *)
@@ -34,10 +35,34 @@ SplitComma(s, cur) == IF s = <<>> THEN <<cur>>
                       ELSE IF Head(s) = COMMA THEN <<cur>> \o SplitComma(Tail(s), <<>>)
                       ELSE SplitComma(Tail(s), Append(cur, Head(s)))
 
-\* a comma separated list header without quoted strings: a trailing empty piece is no value
-ListValues(text) == LET ps  == SplitComma(text, <<>>)
-                        ps2 == IF ps[Len(ps)] = <<>> THEN Take(ps, Len(ps) - 1) ELSE ps
-                    IN [i \in 1..Len(ps2) |-> Strip(ps2[i])]
+\* The values of an X-Forwarded-* list.  Each proxy appends ", <its value>": the values are the comma
+\* separated pieces, white space aside; quoted strings are no part of the syntax (repo fix 2d7315b).
+\* The documentation does not say what an EMPTY piece counts for, so there are two readings:
+\*   "counted"  every piece is a value (what the code does: value.split(","))
+\*   "ignored"  empty pieces are no values
+Pieces(text) == LET ps == SplitComma(text, <<>>) IN [i \in 1..Len(ps) |-> Strip(ps[i])]
+ListValues(text) == Pieces(text)
+ValuesR(reading, text) == IF reading = "ignored" THEN SelectSeq(Pieces(text), LAMBDA x : x # <<>>) ELSE Pieces(text)
+Readings == {"counted", "ignored"}
+
+\* The list parser the middleware used before that fix (and Request.access_route still uses):
+\* urllib's parse_http_list + parse_list_header.  A double quote opens a quoted string in which
+\* commas do not separate (a backslash escapes the next character); a last empty part is dropped;
+\* parts are stripped and lose a pair of surrounding quotes.  ONE quote sent by the client therefore
+\* merges everything the proxies appended into the client's item.
+DQ  == 34
+BSL == 92
+RECURSIVE HttpList(_, _, _, _)
+HttpList(s, part, quote, escape) ==
+  IF s = <<>> THEN (IF part # <<>> THEN <<part>> ELSE <<>>)
+  ELSE LET c == Head(s) r == Tail(s) IN
+       IF escape THEN HttpList(r, Append(part, c), quote, FALSE)
+       ELSE IF quote THEN (IF c = BSL THEN HttpList(r, part, TRUE, TRUE)
+                           ELSE HttpList(r, Append(part, c), c # DQ, FALSE))
+       ELSE IF c = COMMA THEN <<part>> \o HttpList(r, <<>>, FALSE, FALSE)
+       ELSE HttpList(r, Append(part, c), c = DQ, FALSE)
+Unquote(x) == IF Len(x) >= 2 /\ x[1] = DQ /\ x[Len(x)] = DQ THEN SubSeq(x, 2, Len(x) - 1) ELSE x
+QuotedListValues(text) == LET ps == HttpList(text, <<>>, FALSE, FALSE) IN [i \in 1..Len(ps) |-> Unquote(Strip(ps[i]))]
 
 \* the value to trust, <<>> = leave the environ alone
 PickVals(n, vals) == IF n = 0 \/ Len(vals) < n THEN <<>> ELSE vals[Len(vals) - n + 1]
@@ -50,10 +75,16 @@ LastColon(s) == CHOOSE k \in 1..Len(s) : s[k] = COLON /\ \A j \in (k + 1)..Len(s
 NameOfHP(s) == IF HasPort(s) THEN Take(s, LastColon(s) - 1) ELSE s
 PortOfHP(s) == IF HasPort(s) THEN Drop(s, LastColon(s)) ELSE <<>>
 
-\* variant "right" = the documented table; "left" = a deliberately wrong one (counts from the left)
-PickV(variant, n, h) == IF variant = "right" THEN Pick(n, h)
-                        ELSE IF n = 0 \/ ~h.p \/ h.text = <<>> THEN <<>>
-                        ELSE LET v == ListValues(h.text) IN IF Len(v) < n THEN <<>> ELSE v[n]
+\* variant "right"   = the table as the code reads it (plain split, every piece counted)
+\*         "ignored" = the other documented reading (empty pieces are no values)
+\*         "pinned"  = the tree before repo fix 2d7315b (quoted-string list parsing)    -- must be rejected
+\*         "left"    = a deliberately wrong table that counts from the client's side     -- must be rejected
+PickV(variant, n, h) ==
+  IF n = 0 \/ ~h.p \/ h.text = <<>> THEN <<>>
+  ELSE CASE variant = "right"   -> PickVals(n, Pieces(h.text))
+         [] variant = "ignored" -> PickVals(n, ValuesR("ignored", h.text))
+         [] variant = "pinned"  -> PickVals(n, QuotedListValues(h.text))
+         [] OTHER -> LET v == Pieces(h.text) IN IF Len(v) < n THEN <<>> ELSE v[n]
 
 Out(variant, cfg, env, hd) ==
   LET xf  == PickV(variant, cfg.x_for, hd.for)
@@ -95,4 +126,7 @@ JudgedHost(e) == DropStd(RawHost(e), e.scheme)
 
 \* acceptable answers of the trust check for an environ (with or without the standard port)
 EnvVerdicts(tab, e, trusted) == Verdicts(tab, RawHost(e), trusted) \cup Verdicts(tab, JudgedHost(e), trusted)
+\* ... for a request through ProxyFix, under every reading of empty list elements the documentation allows
+AllReadingsVerdicts(tab, cfg, env, hd, trusted) ==
+  EnvVerdicts(tab, Out("right", cfg, env, hd), trusted) \cup EnvVerdicts(tab, Out("ignored", cfg, env, hd), trusted)
 =============================================================================
